@@ -8,7 +8,7 @@ RULE = ("(F) every payload of length <= 4 over {a } # $ * ' + - :} packed by rsp
         "alone and between every (prefix, suffix) in {nothing, +, -, junk byte, another packet}^2, plus every single-byte "
         "corruption of its body/checksum; (A) the real RspHandler/GdbDebugDriver run as threads {users, rx, peer, stop handler} "
         "under the stateless schedule explorer vf/sched.py: every peer script of length <= 3 over {+, -, -+, +reply, "
-        "+badreply+reply, ++, +stop, silence} x retries {1,2,3} x {one user sending len(script) packets, two users sending one "
+        "+badreply+reply, ++, +++, +stop, silence} x retries {1,2,3} x {one user sending len(script) packets, two users sending one "
         "each}, every schedule with preemptions + environment deviations <= 2 (quick) / 3 (thorough; also line-granular "
         "preemption points in rsp.py at bound <= 1); distinct non-trivial = distinct (script, user outcomes, wire transcript, "
         "delivered messages, end state) of an execution, or (framing context class, decoder result) for F")
@@ -18,7 +18,7 @@ ASSUMPTIONS = [
     "virtual time: a timed wait fires only when no thread is enabled (timeouts are long compared with scheduling delays); real time never runs",
     "the peer answers each received transmission with its script symbol, then '+' for every further transmission; peer bytes are delivered one at a time in order",
     "retry budget: a sender may give up after r or r+1 transmissions (both readings of `retries` accepted); raising although the last permitted retransmission was acknowledged is counted, not flagged",
-    "clause (3) is evaluated only for scripts in which the peer emits exactly one acknowledgement symbol per transmission",
+    "clause (3) is evaluated per sendpkt call: not when one of its transmissions met silence, and not when a surplus acknowledgement reached the handler while the call was in progress (ambiguous without sequence numbers); surplus acknowledgements completely delivered before the call began must not count as its acknowledgement",
     "run-length encoding of replies and payloads longer than 4 characters are not explored",
 ]
 CLAIM = {
@@ -324,11 +324,12 @@ SYMBOLS = {
     "AR": (b"+" + REPLY, 0, 1, "ack then reply packet"),
     "ABR": (b"+" + BADREPLY + REPLY, 1, 1, "ack, reply with bad checksum, reply again"),
     "AA": (b"++", 1, 2, "ack plus a stale extra ack"),
+    "AAA": (b"+++", 1, 3, "ack plus two stale extra acks"),
     "AT": (b"+" + STOP, 1, 1, "ack then unsolicited stop packet"),
     "S": (b"", 1, 0, "silence"),
 }
-RSP_SYMS = ["A", "N", "AR", "NA", "ABR", "AA", "S"]           # AT == AR for a bare RspHandler
-CLIENT_SYMS = ["AR", "N", "AT", "ABR", "AA", "S"]
+RSP_SYMS = ["A", "N", "AR", "NA", "ABR", "AA", "AAA", "S"]           # AT == AR for a bare RspHandler
+CLIENT_SYMS = ["AR", "N", "AT", "ABR", "AA", "AAA", "S"]
 NEEDS_RETRIES = {"N", "NA", "S"}
 
 
@@ -557,10 +558,20 @@ def judge(ex, cfg):
     plus_delivered = 0
     ok_returns = 0
     txi = 0
-    for e in ev:
+    rxdec = RefDecoder()
+    delivered = []            # acknowledgement symbols as handed to the client: [index of 'rx', index of 'rxd' or None, symbol]
+    for ei, e in enumerate(ev):
         t = e[0]
+        if t == "rx":
+            r_ = rxdec.feed(e[1])
+            if r_ is not None and r_[0] == "ack":
+                delivered.append([ei, None, r_[1]])
+        elif t == "rxd":
+            if delivered and delivered[-1][1] is None:
+                delivered[-1][1] = ei
         if t == "call":
-            c = {"thread": e[1], "i": e[2], "payload": e[3], "retries": e[4], "tx": [], "timeouts": 0, "outcome": None}
+            c = {"thread": e[1], "i": e[2], "payload": e[3], "retries": e[4], "tx": [], "timeouts": 0, "outcome": None,
+                 "start": ei, "end": None}
             calls[(e[1], e[2])] = c
             order.append(c)
             open_call[e[1]] = c
@@ -579,15 +590,34 @@ def judge(ex, cfg):
         elif t in ("ret", "raise"):
             c = open_call.pop(e[1])
             c["outcome"] = "ok" if t == "ret" else e[3]
+            c["end"] = ei
             if t == "ret":
                 ok_returns += 1
                 if ok_returns > plus_delivered:
                     out.append(("A/send/returns-without-ack",
                                 "sendpkt(%r) returned normally although only %d '+' had been delivered for %d successful sends"
                                 % (c["payload"], plus_delivered, ok_returns)))
-    eligible = all(SYMBOLS[x][2] == 1 for x in script)
     if complete and len(peer_pkts) != txi:
         raise HarnessError("peer saw %d transmissions, wire shows %d" % (len(peer_pkts), txi))
+    # Acknowledgement symbols the peer emitted: the first one of a response answers that transmission, the others are
+    # surplus.  RSP has no sequence numbers, so a surplus symbol that reaches the handler while a sendpkt call is in
+    # progress is ambiguous and that call is not judged by clause (3); a surplus symbol completely delivered before a call
+    # began cannot belong to any of its transmissions and must not be taken for their acknowledgement.
+    answer = {}               # transmission index -> '+' / '-'
+    emitted = []              # (is_answer, symbol) in wire order
+    for k, raw, ok, payload, sym in peer_pkts:
+        first = True
+        for r_ in ref_decode_stream(_peer_bytes(cfg, sym)):
+            if r_[0] == "ack":
+                emitted.append((k if first else None, r_[1]))
+                if first:
+                    answer[k] = r_[1]
+                first = False
+    acks = []                 # (index of 'rx', index of 'rxd', answered transmission or None for a surplus symbol)
+    if complete:
+        if [x[2] for x in delivered] != [x[1] for x in emitted] or any(x[1] is None for x in delivered):
+            raise HarnessError("acknowledgements delivered %r do not match those emitted %r" % (delivered, emitted))
+        acks = [(d[0], d[1], em[0]) for d, em in zip(delivered, emitted)]
     for c in order:
         if c["outcome"] is None:
             continue    # aborted by the end of the execution (deadlock etc. already reported)
@@ -604,11 +634,19 @@ def judge(ex, cfg):
         dec = ref_decode_stream(txs[0][1])
         if dec != [("pkt", txs[0][1], True, c["payload"])]:
             out.append(("A/send/packet-wrong", what + "; wire %r does not decode to the payload" % txs[0][1]))
-        if not (complete and eligible):
+        if not complete or any(answer.get(gi) is None for gi, _ in txs):
+            continue        # silence: only clauses (1), (2), (4), (5) apply
+        mine = set(gi for gi, _ in txs)
+        if any(owner not in mine and not (rxd < c["start"] or rx > c["end"]) for rx, rxd, owner in acks):
+            # a surplus symbol, or the late answer to a transmission of an earlier call, arrived during this call
+            uncl.append("call_with_ambiguous_foreign_ack")
             continue
-        # responses the peer gave to each transmission of this call (exactly one ack symbol each)
-        resp = ["+" if SYMBOLS[peer_pkts[gi][4]][0][:1] == b"+" else "-" for gi, _ in txs]
+        stale = sum(1 for rx, rxd, owner in acks if owner is None and rxd < c["start"])
+        # the answer of the peer to each transmission of this call
+        resp = [answer[gi] for gi, _ in txs]
         what += "; peer answered %s" % "".join(resp)
+        if stale:
+            what += " (%d surplus ack(s) had been completely delivered before this call began)" % stale
         if c["timeouts"]:
             # every answer was delivered before virtual time advanced, so the sender sat on a delivered answer
             if resp[-1] == "-":
@@ -622,7 +660,11 @@ def judge(ex, cfg):
             continue
         if c["outcome"] == "ok":
             if resp[-1] != "+":
-                out.append(("A/nack/treated-as-ack", what + "; returned normally although the last transmission was nacked"))
+                if stale:
+                    out.append(("A/ack/stale-ack-accepted", what + "; returned normally although the last transmission was nacked: "
+                                "an acknowledgement that arrived before the packet was sent was taken for its acknowledgement"))
+                else:
+                    out.append(("A/nack/treated-as-ack", what + "; returned normally although the last transmission was nacked"))
             elif n > r + 1:
                 out.append(("A/retries/exceeded", what))
         else:
@@ -642,7 +684,7 @@ def judge(ex, cfg):
                tuple(msgs), len(client_acks), tuple(sorted(dead)),
                tuple(e[1:] for e in ev if e[0] in ("cmd-ret", "cmd-raise")))
     # one defect, one key: keep the first violation per key; the weak "returned without any ack" test is subsumed
-    if any(k == "A/nack/treated-as-ack" for k, _ in out):
+    if any(k in ("A/nack/treated-as-ack", "A/ack/stale-ack-accepted") for k, _ in out):
         out = [(k, w) for k, w in out if k != "A/send/returns-without-ack"]
     seen = {}
     for k, w in out:
@@ -811,10 +853,16 @@ def replay(w):
     rsp, client = prepare("A")
     cfg = w["cfg"]
     try:
-        ex = explorer_for(cfg, rsp, client).replay(w["choices"])
+        note = ""
+        try:
+            ex = explorer_for(cfg, rsp, client).replay(w["choices"])
+        except sched.SchedError:
+            # the schedule was recorded on different code (e.g. before a fix): replay the nearest existing schedule
+            ex = explorer_for(cfg, rsp, client).replay([c[0] if isinstance(c, list) else c for c in w["choices"]], lenient=True)
+            note = " [recorded schedule does not exist on this tree; nearest schedule %r replayed]" % ex.choices()
         viols, uncl, summary = judge(ex, cfg)
     finally:
         sched.shutdown_pool()
     if viols:
-        return True, "; ".join("%s: %s" % kv for kv in viols)
-    return False, "schedule %r of %r satisfies clauses (1)-(5); end=%s" % (w["choices"], cfg["script"], ex.end)
+        return True, "; ".join("%s: %s" % kv for kv in viols) + note
+    return False, "schedule %r of %r satisfies clauses (1)-(5); end=%s%s" % (ex.choices(), cfg["script"], ex.end, note)
